@@ -60,7 +60,8 @@ StepLine(e) ==
         /\ LET u == UnconstrainedCells(font, ln) IN
            Stat([lines |-> 1, chars |-> Len(e.chars), unconstrained_cells |-> u, drift_compared |-> IF small THEN 1 ELSE 0])
   /\ UNCHANGED font
-StepPanic(e) == e.ev = "panic" /\ UNCHANGED font     \* totality is C08's business; counted by the recorder
+\* a library call of this case panicked: the property promises a result for every input of its domain
+StepPanic(e) == e.ev = "panic" /\ Report(e.case, {"library_call_panicked"}, [msg |-> e.msg, loc |-> e.loc]) /\ UNCHANGED font
 
 Next == /\ l <= NRec
         /\ LET e == Rec[l] IN StepCase(e) \/ StepFont(e) \/ StepLine(e) \/ StepPanic(e)
